@@ -14,6 +14,16 @@ CHECKS = {
           'assumption: non-degenerate triangle; KKT/non-negativity are core in a canonical frame, generality in orientation via solver-proved rotation invariance of every dot product.'),
     technique='symbolic execution of LLVM IR + z3 nonlinear real arithmetic; native replay of counterexamples',
     design='3/C05'),
+ 'C02': dict(
+    level='other',
+    text=('Bounded symbolic proof: apply_pressure_on_surface, apply_surface_tension_and_membrane_elasticity (whole mesh; T4,T5 quick, +T6 thorough), apply_bending_forces (one hinge at a time) '
+          'and regularize_face_angles (one face at a time) run in irsym after the real constructor/initialisation with every coordinate and parameter symbolic. For every feasible path the solver '
+          'decides net force = 0 and net torque = 0; pressure and tension/elasticity forces are proved equal, per node and component, to p*dV/dx_i and -sum_f gamma_eff,f*dA_f/dx_i obtained by '
+          'differentiating the oracle volume/area polynomials. Bending is decided in the canonical hinge frame with a free translation.'),
+    note=('Trusted: clang lowering (validated per run), irsym, polynomial normaliser (sqrt/denominator atoms, tan(acos c)=sqrt(1-c^2)/c), z3. Assumptions: closed outward mesh in generic position; exact reals; '
+          'M_PI/2 read as pi/2. Outside: meshes > 6 nodes, rotation covariance of the bending hinge, values of the bending/regularisation energy gradients.'),
+    technique='symbolic execution of LLVM IR + algebraic normalisation + z3 nonlinear real arithmetic; native replay of solver models',
+    design='3/C02'),
  'C12': dict(
     level='other',
     text=('Bounded symbolic proof: the real cell constructor, initialize_cell_properties, compute_volume/area/centroid, get_aabb, update_face_normal_and_area and '
